@@ -55,7 +55,7 @@ class RustMagicNumberAnalyzer(RustBaseAnalyzer):
             node: Current tree-sitter node
             literals: List to accumulate found literals
         """
-        if node.type in self.NUMERIC_LITERAL_TYPES:
+        if node.type in self.NUMERIC_LITERAL_TYPES and not _is_tuple_field_index(node):
             value = self._extract_numeric_value(node)
             if value is not None:
                 line_number = node.start_point[0] + 1
@@ -152,3 +152,11 @@ class RustMagicNumberAnalyzer(RustBaseAnalyzer):
             True if inside #[test] function or #[cfg(test)] module
         """
         return self.is_inside_test(node)
+
+
+def _is_tuple_field_index(node: Any) -> bool:
+    """Check for the index of a tuple field access (pair.2): a field name, not a numeric literal."""
+    parent = node.parent
+    if parent is None or parent.type != "field_expression":
+        return False
+    return bool(parent.child_by_field_name("field") == node)
